@@ -474,6 +474,26 @@ impl Prop for Labels {
             }
         }
         let long = "x".repeat(c.below(180));
+        // scenarios whose instantiations differ only in what a careless display name drops
+        let scenario = c.below(5);
+        if scenario >= 2 {
+            let (name, src): (&str, String) = match scenario {
+                2 => (
+                    "two-instantiations-of-a-generic-trait-boxed",
+                    format!("trait Conv[T] {{ fn conv(): T; }}\nclass Sq{long} {{ v: Int64 }}\nimpl Conv[Int64] for Sq{long} {{ fn conv(): Int64 {{ self.v * self.v }} }}\nimpl Conv[String] for Sq{long} {{ fn conv(): String {{ \"sq${{self.v}}\" }} }}\nfn main() {{\n    let a = Sq{long}(v = 4) as Conv[Int64];\n    let b = Sq{long}(v = 5) as Conv[String];\n    println(\"${{a.conv()}} ${{b.conv()}}\");\n}}\n"),
+                ),
+                3 => (
+                    "trait-objects-that-differ-in-associated-type-bindings",
+                    format!("trait Src {{ type Item; fn get(): Self::Item; }}\nclass A{long} {{ v: Int64 }}\nclass B{long} {{ v: String }}\nimpl Src for A{long} {{ type Item = Int64; fn get(): Int64 {{ self.v }} }}\nimpl Src for B{long} {{ type Item = String; fn get(): String {{ self.v }} }}\nfn id[T](x: T): T {{ x }}\nfn main() {{\n    let a = id[Src[Item = Int64]](A{long}(v = 1) as Src[Item = Int64]);\n    let b = id[Src[Item = String]](B{long}(v = \"s\") as Src[Item = String]);\n    println(\"${{a.get()}} ${{b.get()}}\");\n}}\n"),
+                ),
+                _ => (
+                    "same-named-types-in-different-modules-as-type-arguments",
+                    format!("mod a {{ pub class Foo{long} {{ pub v: Int64 }} pub struct Bar {{ pub v: Int64 }} }}\nmod b {{ pub class Foo{long} {{ pub v: Int64 }} pub struct Bar {{ pub v: Int64 }} }}\nfn id[T](x: T): T {{ x }}\nfn main() {{\n    let x = id[a::Foo{long}](a::Foo{long}(v = 1));\n    let y = id[b::Foo{long}](b::Foo{long}(v = 2));\n    let p = id[a::Bar](a::Bar(v = 3));\n    let q = id[b::Bar](b::Bar(v = 4));\n    println(\"${{x.v}} ${{y.v}} ${{p.v}} ${{q.v}}\");\n}}\n"),
+                ),
+            };
+            let config = c.pick_str(&["baseline-x64", "optimizing-x64"]).to_string();
+            return AsmCase { label: name.to_string(), source: src, config, gc: None };
+        }
         let source = format!(
             "class Wr[T] {{ v: T }}\nmod a {{ pub fn same{long}(): Int64 {{ 1 }} pub mod b {{ pub fn same{long}(): Int64 {{ 2 }} }} }}\nmod b {{ pub fn same{long}(): Int64 {{ 3 }} }}\nfn id[T](x: T): T {{ x }}\nfn twice[T](x: T): (T, T) {{ (id[T](x), id[T](x)) }}\nfn main() {{\n    let v: {ty} = {val};\n    let w = twice[{ty}](id[{ty}](v));\n    let f = |q: Int64|: Int64 {{ q + a::same{long}() + a::b::same{long}() + b::same{long}() }};\n    println(\"${{f(1)}}\");\n}}\n"
         );
@@ -502,12 +522,12 @@ impl Prop for Labels {
                 cmd.arg("-c").arg(scratch.file("out.s")).arg("-o").arg(scratch.file("out.o"));
                 let g = run_cmd(cmd, Duration::from_secs(120));
                 if !g.ok() {
-                    return Outcome::fail(h, "assembler-rejects-symbols", truncate_str(&g.stderr_str(), 600));
+                    return Outcome::fail(h, format!("assembler-rejects-symbols:{}", case.label.split(':').next().unwrap_or("")), truncate_str(&g.stderr_str(), 600));
                 }
                 let longest = a.labels.iter().map(|l| l.len()).max().unwrap_or(0);
-                Outcome::pass(h, longest >= 200).class(format!("config:{}", case.config)).class_if(longest >= 200, "has-shortened-symbol").class(format!("labels~{}", (n / 500) * 500))
+                Outcome::pass(h, longest >= 200).class(format!("config:{}", case.config)).class(format!("scenario:{}", case.label.split(':').next().unwrap_or(""))).class_if(longest >= 200, "has-shortened-symbol").class(format!("labels~{}", (n / 500) * 500))
             }
-            Err((k, m)) => Outcome::fail(h, k, m),
+            Err((k, m)) => Outcome::fail(h, format!("{k}:{}", case.label.split(':').next().unwrap_or("")), m),
         }
     }
     fn render(&self, case: &AsmCase) -> Value {
